@@ -297,6 +297,9 @@ def check_inv_obj(I, st0, oid, problems, undecided):
                             vu = I.as_u(st, v)
                             if vu is not None:
                                 env = st.find_model([vu], lambda x: x[0] != 0)
+                                # a unit read from memory that was written during the operation is not an input of it
+                                if env is not None and any(isinstance(k, tuple) and k[0] in ('load', 'tbl') and k[3] != 0 for k in env):
+                                    env = None
                         if env is not None:
                             problems.append(('terminator', '%s: the unit at index m_size = %r of the in-object array was written with a value that need not be '
                                              'NUL; witness %s' % (where, sl, fmt_env(env))))
